@@ -81,4 +81,14 @@ CHECKS['C13'] = dict(
          '`filter` == lines accepted by the reference == lines accepted by the same real matcher applied to each line alone, and every accepted line '
          'number lies in interval_of_matcher(matcher).  A CLI slice runs every 7th expression through stdout -transformed-by ... equals.',
     note='Found and repaired a genuine defect (fix: commit ae84285 in /repo, known_findings.json KF-C13-1).')
+CHECKS['C06'] = dict(
+    level='exploration',
+    technique='bounded-exhaustive enumeration of expression trees x renderings (parentheses, layouts) x 6 host types through the real parsers (def + assertion in the polarity the tree gives), evaluation order observed at the process seam; reference recursive-descent parser classifies every single-token mutation',
+    text='All trees to depth 2 over 3 leaves (thorough: 4 leaves + a 3-level family) for integer/line/text/file/files matchers x 4 rendering styles (thorough 8), every '
+         'placement of one and two redundant parenthesis pairs and all 6 layouts on the depth-1 trees, | chains of non-commuting transformers to length 3 in 4 '
+         'groupings x 3 layouts, 40 simple-expression contexts followed by an outer operator, and every single-token deletion/duplication/transposition of the '
+         'depth-1 renderings (valid per the documented grammar => reference value, invalid => exit 65).  Lazy left-to-right evaluation is checked exactly: '
+         'run-leaves have unique program names and the call log must equal the short-circuit order of the tree.',
+    note='A line break before an infix operator is treated as may-be-rejected (thorough tier only); arguments may continue on following lines, so malformed '
+         'expressions are placed at the end of the file.')
 NOT_APPLICABLE = {}
